@@ -5,9 +5,12 @@ Spends of the eight standard shapes are built and signed THROUGH THE LIBRARY (si
 finalize_*), then every mutation of the property's catalogue is applied.  For each (mutated) spend:
 
   impl        Tx.verify_input(i) on the real code -> ACCEPT | REJECT (False or any exception)
-  authorised  the property's authorisation predicate, evaluated independently in Python from the spent
-              output's commitment (key hash / script keys / taproot openings) and the signatures that are
-              present anywhere in the scriptSig or witness
+  authorised  the property's authorisation predicate, evaluated independently from the spent output's
+              commitment (key hash / script keys / taproot openings) and the signatures that are present
+              anywhere in the scriptSig or witness; the digest each signature must sign is NOT taken from the
+              library: it is the Lean specification's digest (Buidl.Spec.Sighash through drv_c05: spec_legacy /
+              spec_bip143 / spec_bip341) of the CURRENT transaction, input, hash type and script code, and the
+              signatures are verified against that digest with the real point.verify / verify_schnorr
   model       lean/Buidl/Model/Interp.lean `verifyInput` (driver drv_c06), with the key / signature /
               control-block oracles answered from what the real code computed during the impl run
               (recorded through proxies installed in buidl.op and buidl.witness), so the comparison
@@ -20,10 +23,11 @@ finalize_*), then every mutation of the property's catalogue is applied.  For ea
 import hashlib
 import random
 
-from harness.common import REJECT, MachineryError, xb, blist, batch_parallel, pmap
+from harness.common import REJECT, MachineryError, Driver, xb, unx, blist, batch_parallel, pmap
+from harness import txtok as T
 
 PROPERTY = "C06"
-DRIVERS = ["drv_c06"]
+DRIVERS = ["drv_c06", "drv_c05"]
 ANCHORS = [
     ("buidl/tx.py", "Tx.verify_input"), ("buidl/tx.py", "Tx.sig_hash"), ("buidl/script.py", "Script.evaluate"),
     ("buidl/op.py", "op_checksig"), ("buidl/op.py", "op_checksigverify"), ("buidl/op.py", "op_checkmultisig"),
@@ -257,6 +261,44 @@ def spend_line(tx, idx):
             f"{fmt_cmds(tx_in._script_pubkey.commands)} {blist(tx_in.witness.items)}")
 
 
+def tx_desc(tx):
+    """plain-data description (harness/txtok.py format) of the whole transaction with its spent outputs"""
+    return {"version": tx.version, "locktime": int(tx.locktime), "segwit": bool(tx.segwit),
+            "ins": [{"prev_tx": ti.prev_tx, "prev_index": ti.prev_index,
+                     "script_sig": T.d_script(ti.script_sig.commands, ti.script_sig.raw), "sequence": int(ti.sequence),
+                     "witness": list(ti.witness.items), "value": ti._value,
+                     "spk": T.d_script(ti._script_pubkey.commands, ti._script_pubkey.raw)} for ti in tx.tx_ins],
+            "outs": [{"amount": o.amount, "spk": T.d_script(o.script_pubkey.commands, o.script_pubkey.raw)}
+                     for o in tx.tx_outs]}
+
+
+def request_line(desc, idx):
+    """`verify_tx <input index> <transaction tokens>`: everything needed to rebuild the case (impl_line, replay,
+    line-coverage sample)"""
+    return f"verify_tx {idx} {T.t_tx(desc)}"
+
+
+def impl_line(line):
+    """re-execute one recorded case on the real code -> ACCEPT | REJECT"""
+    t = line.split(" ")
+    if t[0] != "verify_tx":
+        raise MachineryError("unknown request " + t[0])
+    ts = T.Toks(t, 2)
+    try:
+        tx = T.p_tx(ts)
+    except MachineryError:
+        raise
+    except Exception:
+        return REJECT
+    return run_impl(tx, int(t[1]))[0]
+
+
+def eval_pred(kind, case):
+    """predicate cases are request lines as well"""
+    r = impl_line(case["line"])
+    return r == case.get("impl", r), r, case.get("impl", r)
+
+
 def run_impl(tx, idx):
     """verify_input with recording -> (ACCEPT|REJECT, tables)"""
     _patch()
@@ -274,15 +316,62 @@ def run_impl(tx, idx):
 
 
 # --------------------------------------------------------------------------------- authorisation predicate
-def _valid_ecdsa(tx, idx, pk_raw, sig_raw, zfun):
-    """sig_raw = DER || hash_type; zfun(hash_type) -> digest for this input"""
+def p2pkh_code(h):
+    return b"\x76\xa9\x14" + h + b"\x88\xac"
+
+
+def sig_hash_types(sp, els):
+    """hash types of the elements that look like signatures of the spend's kind"""
+    hts = set()
+    for e in els:
+        if sp["shape"] == "p2tr":
+            if len(e) == 64:
+                hts.add(0)
+            elif len(e) == 65:
+                hts.add(e[-1])
+        elif len(e) >= 9 and e[0] == 0x30:
+            hts.add(e[-1])
+    return sorted(hts)
+
+
+def spec_requests(sp, desc, idx, hts):
+    """drv_c05 specification requests for the digest that a signature with hash type `ht` has to sign for THIS
+    input of THIS transaction: ht -> request line (script code / amount / annex / leaf from the spent output's
+    commitment data and the current witness, never from the library's Tx.sig_hash)"""
+    stx = T.stx_tokens(desc)
+    inp = desc["ins"][idx]
+    shape = sp["shape"]
+    out = {}
+    for ht in hts:
+        if shape == "p2pkh":
+            out[ht] = f"spec_legacy {stx} {idx} {xb(p2pkh_code(sp['h160']))} {ht}"
+        elif shape == "p2sh_ms":
+            out[ht] = f"spec_legacy {stx} {idx} {xb(sp['redeem_raw'])} {ht}"
+        elif shape in ("p2wpkh", "p2sh_p2wpkh"):
+            out[ht] = f"spec_bip143 {stx} {idx} {xb(p2pkh_code(sp['h160']))} {inp['value']} {ht}"
+        elif shape in ("p2wsh_ms", "p2sh_p2wsh_ms"):
+            out[ht] = f"spec_bip143 {stx} {idx} {xb(sp['wscript_raw'])} {inp['value']} {ht}"
+        else:
+            w = inp["witness"]
+            annex = w[-1] if len(w) >= 2 and w[-1][:1] == b"\x50" else None
+            rest = w[:-1] if annex is not None else w
+            a = "-" if annex is None else xb(annex)
+            if len(rest) >= 2 and len(rest[-1]) >= 1:
+                ext = f"L {rest[-1][0] & 0xFE} {xb(rest[-2])}"
+            else:
+                ext = "-"
+            out[ht] = f"spec_bip341 {stx} {T.spent_tokens(desc)} {idx} {ht} {a} {ext}"
+    return out
+
+
+def _valid_ecdsa(pk_raw, sig_raw, z):
+    """sig_raw = DER || hash_type, z = the specification's digest (int) for that hash type"""
     from buidl.ecc import S256Point, Signature
-    if len(sig_raw) < 9 or len(pk_raw) not in (33, 65):
+    if z is None or len(sig_raw) < 9 or len(pk_raw) not in (33, 65):
         return False
     try:
         pt = _S["vcache"].setdefault(("P", pk_raw), S256Point.parse(pk_raw))
         sig = Signature.parse(sig_raw[:-1])
-        z = zfun(sig_raw[-1])
     except Exception:
         return False
     k = ("e", (pk_raw, z, sig_raw[:-1]))
@@ -291,7 +380,7 @@ def _valid_ecdsa(tx, idx, pk_raw, sig_raw, zfun):
     return bool(_S["vcache"][k])
 
 
-def _valid_schnorr(xonly, sig_raw, msgfun):
+def _valid_schnorr(xonly, sig_raw, zmap):
     from buidl.ecc import S256Point, SchnorrSignature
     if len(sig_raw) == 64:
         ht, body = 0, sig_raw
@@ -299,10 +388,12 @@ def _valid_schnorr(xonly, sig_raw, msgfun):
         ht, body = sig_raw[-1], sig_raw[:-1]
     else:
         return False
+    msg = zmap.get(ht)
+    if msg is None:
+        return False
     try:
         pt = _S["vcache"].setdefault(("X", xonly), S256Point.parse_xonly(xonly))
         sig = SchnorrSignature.parse(body)
-        msg = msgfun(ht)
     except Exception:
         return False
     k = ("s", (xonly, msg, body))
@@ -311,9 +402,9 @@ def _valid_schnorr(xonly, sig_raw, msgfun):
     return bool(_S["vcache"][k])
 
 
-def elements(tx, idx):
-    tx_in = tx.tx_ins[idx]
-    els = [c for c in tx_in.script_sig.commands if isinstance(c, bytes)] + list(tx_in.witness.items)
+def elements_of(desc, idx):
+    inp = desc["ins"][idx]
+    els = [c for c in inp["script_sig"]["cmds"] if isinstance(c, bytes)] + list(inp["witness"])
     seen, out = set(), []
     for e in els:
         if e not in seen:
@@ -322,50 +413,47 @@ def elements(tx, idx):
     return out
 
 
-def authorised(sp, tx, idx):
-    """the property's authorisation predicate for the spent output described by `sp` (commitment data only)"""
+def parse_spec_answer(shape, ans):
+    if ans == REJECT:
+        return None
+    return unx(ans) if shape == "p2tr" else int(ans)
+
+
+def authorised(sp, desc, idx, zmap):
+    """the property's authorisation predicate for the spent output described by `sp` (commitment data only) on the
+    transaction `desc`; zmap: hash type -> specification digest (None: the specification defines none)"""
     from buidl.helper import hash160
     shape = sp["shape"]
-    els = elements(tx, idx)
-    orig_sh = type(tx).sig_hash  # noqa: F841  (the predicate calls the specific sig_hash_* functions directly)
+    els = elements_of(desc, idx)
 
-    def z_legacy(rs):
-        return lambda ht: tx.sig_hash_legacy(idx, rs, hash_type=ht)
-
-    def z_segwit(rs, ws):
-        return lambda ht: tx.sig_hash_bip143(idx, redeem_script=rs, witness_script=ws, hash_type=ht)
+    def ecdsa_ok(p, s_):
+        return len(s_) >= 9 and _valid_ecdsa(p, s_, zmap.get(s_[-1]))
 
     if shape in ("p2pkh", "p2wpkh", "p2sh_p2wpkh"):
         h = sp["h160"]
-        zf = z_legacy(None) if shape == "p2pkh" else z_segwit(sp.get("redeem"), None)
-        for p in els:
-            if len(p) in (33, 65) and hash160(p) == h:
-                for s in els:
-                    if _valid_ecdsa(tx, idx, p, s, zf):
+        for p_ in els:
+            if len(p_) in (33, 65) and hash160(p_) == h:
+                for s_ in els:
+                    if ecdsa_ok(p_, s_):
                         return True
         return False
     if shape in ("p2sh_ms", "p2wsh_ms", "p2sh_p2wsh_ms"):
-        zf = z_legacy(sp["redeem"]) if shape == "p2sh_ms" else z_segwit(sp.get("redeem"), sp["wscript"])
         n_ok = 0
         for k in sp["pubkeys"]:
-            if any(_valid_ecdsa(tx, idx, k, s, zf) for s in els):
+            if any(ecdsa_ok(k, s_) for s_ in els):
                 n_ok += 1
         return n_ok >= sp["m"]
     if shape == "p2tr":
-        wit = list(tx.tx_ins[idx].witness.items)
-        if len(wit) >= 2 and len(wit[-1]) > 0 and wit[-1][0] == 0x50:
+        wit = list(desc["ins"][idx]["witness"])
+        if len(wit) >= 2 and wit[-1][:1] == b"\x50":
             wit = wit[:-1]
-        # key path
         if len(wit) == 1:
-            if _valid_schnorr(sp["outkey"], wit[0], lambda ht: tx.sig_hash_bip341(idx, ext_flag=0, hash_type=ht)):
-                return True
-            return False
+            return _valid_schnorr(sp["outkey"], wit[0], zmap)
         if len(wit) >= 2:
             opening = sp["openings"].get((wit[-2], wit[-1]))
             if opening is None:
                 return False
-            msgf = lambda ht: tx.sig_hash_bip341(idx, ext_flag=1, hash_type=ht)   # noqa: E731
-            n_ok = sum(1 for k in opening["keys"] if any(_valid_schnorr(k, s, msgf) for s in wit[:-2]))
+            n_ok = sum(1 for k in opening["keys"] if any(_valid_schnorr(k, s_, zmap) for s_ in wit[:-2]))
             return n_ok >= opening["k"]
         return False
     raise MachineryError("unknown shape " + shape)
@@ -375,16 +463,32 @@ def authorised(sp, tx, idx):
 SHAPES = ["p2pkh", "p2sh_ms", "p2wpkh", "p2sh_p2wpkh", "p2wsh_ms", "p2sh_p2wsh_ms", "p2tr_key", "p2tr_script"]
 
 
-def build_spend(rng, shape):
-    """-> (sp, tx, idx); the spent output's commitment data is in sp, the tx is signed by the library"""
+# (inputs, outputs, index of the input under test): more inputs than outputs with the spend at every index
+LAYOUTS = [(1, 1, 0), (2, 1, 1), (2, 1, 0), (3, 1, 2), (3, 2, 2), (3, 1, 1), (2, 2, 1), (3, 3, 0), (1, 2, 0), (2, 0, 1),
+           (3, 2, 0), (1, 3, 0)]
+ECDSA_HTS = [None, None, 1, 2, 3, 0x81, 0x82, 0x83]     # None: the library's own helpers (SIGHASH_ALL)
+TAPROOT_HTS = [0, 0, 1, 2, 3, 0x81, 0x82, 0x83]
+
+
+def build_spend(rng, shape, layout=None, ht=None):
+    """-> (sp, tx, idx); the spent output's commitment data is in sp, the tx is signed by the library:
+    through sign_* / get_sig_* (SIGHASH_ALL / the taproot hash type) or, for the other ECDSA hash types, with
+    PrivateKey.sign on Tx.sig_hash_legacy / sig_hash_bip143(hash_type=…)"""
     from buidl.tx import Tx, TxIn, TxOut
     from buidl.script import (P2PKHScriptPubKey, P2WPKHScriptPubKey, RedeemScript, WitnessScript, P2TRScriptPubKey)
     from buidl.helper import hash160
     from buidl.taproot import MultiSigTapScript, P2PKTapScript, TapBranch
     from buidl.witness import Witness
     ks = keys()
-    n_in, n_out = rng.randrange(1, 4), rng.randrange(1, 4)
-    idx = rng.randrange(n_in)
+    if layout is None:
+        n_in, n_out = rng.randrange(1, 4), rng.randrange(1, 4)
+        idx = rng.randrange(n_in)
+    else:
+        n_in, n_out, idx = layout
+    if ht is not None and shape.startswith("p2tr") and (ht & 3) == 3 and idx >= n_out:
+        ht = 0x81 if ht & 0x80 else 1          # BIP341: SIGHASH_SINGLE without a matching output is invalid
+    if ht is not None and (ht & 3) == 3 and idx >= n_out and shape in ("p2wpkh", "p2sh_p2wpkh", "p2wsh_ms", "p2sh_p2wsh_ms"):
+        pass                                    # BIP143 defines it (hashOutputs = 0)
     tx_ins = []
     for i in range(n_in):
         ti = TxIn(hashlib.sha256(b"c06%d" % rng.getrandbits(32)).digest(), rng.randrange(0, 4),
@@ -397,57 +501,101 @@ def build_spend(rng, shape):
     tx = Tx(rng.choice([1, 2]), tx_ins, tx_outs, rng.choice([0, 0, 500000, 1600000000]), network="mainnet", segwit=True)
     ti = tx_ins[idx]
     key = rng.choice(ks)
-    sp = {"shape": shape}
+    sp = {"shape": shape, "ht": ht, "layout": (n_in, n_out, idx)}
+
+    def esig(k, kind, rs=None, ws=None, i=idx):
+        """an ECDSA signature by k for input i: the library helper, or PrivateKey.sign over the library's digest
+        for the requested hash type"""
+        if ht is None:
+            if kind == "legacy":
+                return tx.get_sig_legacy(i, k, redeem_script=rs)
+            return tx.get_sig_segwit(i, k, redeem_script=rs, witness_script=ws)
+        if kind == "legacy":
+            z = tx.sig_hash_legacy(i, rs, hash_type=ht)
+        else:
+            z = tx.sig_hash_bip143(i, redeem_script=rs, witness_script=ws, hash_type=ht)
+        return k.sign(z).der() + bytes([ht])
+
     if shape == "p2pkh":
         compressed = rng.random() < 0.8
         key.compressed = compressed
         sec = key.point.sec(compressed=compressed)
         sp.update(h160=hash160(sec))
         ti._script_pubkey = P2PKHScriptPubKey(sp["h160"])
-        ok = tx.sign_p2pkh(idx, key)
+        twin = [j for j in range(n_in) if j != idx]
+        if twin and rng.random() < 0.5:
+            # a second input spending an output with the SAME Script object, signed as well
+            j = rng.choice(twin)
+            tx_ins[j]._script_pubkey = ti._script_pubkey
+            tx_ins[j].finalize_p2pkh(esig(key, "legacy", i=j), sec)
+            sp["twin"] = j
+        if ht is None:
+            ok = tx.sign_p2pkh(idx, key)
+        else:
+            ti.finalize_p2pkh(esig(key, "legacy"), sec)
+            ok = tx.verify_input(idx)
         key.compressed = True
     elif shape == "p2wpkh":
         sp.update(h160=hash160(key.point.sec()))
         ti._script_pubkey = P2WPKHScriptPubKey(sp["h160"])
-        ok = tx.sign_p2wpkh(idx, key)
+        twin = [j for j in range(n_in) if j != idx]
+        if twin and rng.random() < 0.5:
+            j = rng.choice(twin)
+            tx_ins[j]._script_pubkey = ti._script_pubkey
+            tx_ins[j].finalize_p2wpkh(esig(key, "segwit", i=j), key.point.sec())
+            sp["twin"] = j
+        if ht is None:
+            ok = tx.sign_p2wpkh(idx, key)
+        else:
+            ti.finalize_p2wpkh(esig(key, "segwit"), key.point.sec())
+            ok = tx.verify_input(idx)
     elif shape == "p2sh_p2wpkh":
         rs = key.point.p2sh_p2wpkh_redeem_script()
         sp.update(h160=hash160(key.point.sec()), redeem=rs, shape="p2sh_p2wpkh")
         ti._script_pubkey = rs.script_pubkey()
-        ok = tx.sign_p2sh_p2wpkh(idx, key)
+        if ht is None:
+            ok = tx.sign_p2sh_p2wpkh(idx, key)
+        else:
+            ti.script_sig = type(ti.script_sig)([rs.raw_serialize()])
+            ti.finalize_p2wpkh(esig(key, "segwit", rs=rs), key.point.sec(), rs)
+            ok = tx.verify_input(idx)
     elif shape in ("p2sh_ms", "p2wsh_ms", "p2sh_p2wsh_ms"):
         n = rng.randrange(1, 6)
         m = rng.randrange(1, n + 1)
         sub = rng.sample(ks, n)
         pubs = [k.point.sec() for k in sub]
         cmds = [0x50 + m] + pubs + [0x50 + n, 0xAE]
+        raw = T.raw_script(T.d_script(cmds))
         signers = sorted(rng.sample(range(n), m))
         sp.update(m=m, pubkeys=pubs)
         if shape == "p2sh_ms":
             rs = RedeemScript(cmds)
-            sp.update(redeem=rs)
+            sp.update(redeem=rs, redeem_raw=raw)
             ti._script_pubkey = rs.script_pubkey()
-            sigs = [tx.get_sig_legacy(idx, sub[j], redeem_script=rs) for j in signers]
+            ti.script_sig = type(ti.script_sig)([0, rs.raw_serialize()])
+            sigs = [esig(sub[j], "legacy", rs=rs) for j in signers]
             ti.finalize_p2sh_multisig(sigs, rs)
         elif shape == "p2wsh_ms":
             ws = WitnessScript(cmds)
-            sp.update(wscript=ws)
+            sp.update(wscript=ws, wscript_raw=raw)
             ti._script_pubkey = ws.script_pubkey()
-            sigs = [tx.get_sig_segwit(idx, sub[j], witness_script=ws) for j in signers]
+            ti.witness = Witness([b"", ws.raw_serialize()])
+            sigs = [esig(sub[j], "segwit", ws=ws) for j in signers]
             ti.finalize_p2wsh_multisig(sigs, ws)
         else:
             ws = WitnessScript(cmds)
             rs = ws.script_pubkey().redeem_script()
-            sp.update(wscript=ws, redeem=rs)
+            sp.update(wscript=ws, redeem=rs, wscript_raw=raw)
             ti._script_pubkey = rs.script_pubkey()
             ti.script_sig = type(ti.script_sig)([rs.raw_serialize()])
             ti.witness = Witness([b"", ws.raw_serialize()])
-            sigs = [tx.get_sig_segwit(idx, sub[j], redeem_script=rs, witness_script=ws) for j in signers]
+            sigs = [esig(sub[j], "segwit", rs=rs, ws=ws) for j in signers]
             ti.finalize_p2sh_p2wsh_multisig(sigs, ws)
         sp["signers"] = [pubs[j] for j in signers]
         ok = tx.verify_input(idx)
     else:
         # taproot: internal key + optional tree of MultiSigTapScript / P2PKTapScript leaves
+        tht = 0 if ht is None else ht
         internal = key.point
         n_leaves = rng.choice([0, 1, 2, 3]) if shape == "p2tr_key" else rng.choice([1, 2, 3, 4])
         leaves, leafinfo = [], []
@@ -471,13 +619,13 @@ def build_spend(rng, shape):
         openings = {}
         for lf, info in zip(leaves, leafinfo):
             cb = tree.control_block(internal, lf)
-            openings[(info["script"].raw_serialize(), cb.serialize())] = {"keys": info["keys"], "k": info["k"]}
+            openings[(T.raw_script(T.d_script(info["script"].commands)), cb.serialize())] = \
+                {"keys": info["keys"], "k": info["k"]}
         sp.update(shape="p2tr", outkey=outpt.xonly(), openings=openings)
         ti._script_pubkey = P2TRScriptPubKey(outpt)
         if shape == "p2tr_key":
             tweaked = key.tweaked_key(merkle_root)
-            hts = [0, 0, 1, 0x81, 2, 0x82] + ([3, 0x83] if idx < n_out else [])   # SINGLE needs a matching output
-            ok = tx.sign_p2tr_keypath(idx, tweaked, hash_type=rng.choice(hts))
+            ok = tx.sign_p2tr_keypath(idx, tweaked, hash_type=tht)
         else:
             li = rng.randrange(len(leaves))
             lf, info = leaves[li], leafinfo[li]
@@ -488,12 +636,12 @@ def build_spend(rng, shape):
             chosen = set(rng.sample(info["keys"], info["k"]))
             sp["leaf"] = (info["script"].raw_serialize(), cb.serialize())
             if len(info["keys"]) == 1:
-                sig = tx.get_sig_taproot(idx, by_x[info["keys"][0]], ext_flag=1)
+                sig = tx.get_sig_taproot(idx, by_x[info["keys"][0]], ext_flag=1, hash_type=tht)
                 ti.witness.items.insert(0, sig)
             else:
                 # witness order: the signature for the LAST key is at the bottom ... first key on top
                 for x in info["keys"]:
-                    sig = tx.get_sig_taproot(idx, by_x[x], ext_flag=1) if x in chosen else b""
+                    sig = tx.get_sig_taproot(idx, by_x[x], ext_flag=1, hash_type=tht) if x in chosen else b""
                     ti.witness.items.insert(0, sig)
             ok = tx.verify_input(idx)
     sp["built_ok"] = bool(ok is True)
@@ -516,6 +664,38 @@ def clone_tx(tx):
     return Tx(tx.version, ins, outs, int(tx.locktime), network=tx.network, segwit=tx.segwit)
 
 
+def field_edits(tx):
+    """(name, apply(t), revert(t)) for every committed field: version, locktime, each input's outpoint hash /
+    index / sequence / spent amount / spent script, each output's amount / script"""
+    from buidl.script import P2PKHScriptPubKey
+    out = []
+
+    def attr(obj_of, field, new_of, name):
+        def ap(t):
+            o = obj_of(t)
+            setattr(o, "_old_" + field, getattr(o, field))
+            setattr(o, field, new_of(getattr(o, field)))
+
+        def rv(t):
+            o = obj_of(t)
+            setattr(o, field, getattr(o, "_old_" + field))
+        out.append((name, ap, rv))
+    attr(lambda t: t, "version", lambda v: v + 1, "version")
+    attr(lambda t: t, "locktime", lambda v: type(v)((int(v) + 1) % 2 ** 32), "locktime")
+    for j in range(len(tx.tx_ins)):
+        attr(lambda t, j=j: t.tx_ins[j], "prev_tx", lambda v: v[:-1] + bytes([v[-1] ^ 1]), f"in{j}.prev_tx")
+        attr(lambda t, j=j: t.tx_ins[j], "prev_index", lambda v: v + 1, f"in{j}.prev_index")
+        attr(lambda t, j=j: t.tx_ins[j], "sequence", lambda v: type(v)((int(v) + 1) % 2 ** 32), f"in{j}.sequence")
+        attr(lambda t, j=j: t.tx_ins[j], "_value", lambda v: v + 1, f"in{j}.amount")
+        attr(lambda t, j=j: t.tx_ins[j], "_script_pubkey",
+             lambda v: P2PKHScriptPubKey(hashlib.sha256(v.raw_serialize()).digest()[:20]), f"in{j}.spk")
+    for j in range(len(tx.tx_outs)):
+        attr(lambda t, j=j: t.tx_outs[j], "amount", lambda v: v + 1, f"out{j}.amount")
+        attr(lambda t, j=j: t.tx_outs[j], "script_pubkey",
+             lambda v: P2PKHScriptPubKey(hashlib.sha256(v.raw_serialize()).digest()[:20]), f"out{j}.script")
+    return out
+
+
 def mutations(rng, sp, tx, idx, foreign):
     """yield (name, mutated tx); `foreign(tx)` -> a signature of the right format by a key outside the script"""
     from buidl.script import Script
@@ -534,14 +714,10 @@ def mutations(rng, sp, tx, idx, foreign):
             edit(t)
         return name, t
 
-    # --- committed fields changed after signing
-    yield mk("amount", edit=lambda t: setattr(t.tx_ins[idx], "_value", t.tx_ins[idx]._value + 1))
-    yield mk("output_amount", edit=lambda t: setattr(t.tx_outs[0], "amount", t.tx_outs[0].amount + 1))
-    yield mk("sequence", edit=lambda t: setattr(t.tx_ins[idx], "sequence", type(t.tx_ins[idx].sequence)(
-        (int(t.tx_ins[idx].sequence) + 1) % 2 ** 32)))
-    yield mk("locktime", edit=lambda t: setattr(t, "locktime", type(t.locktime)((int(t.locktime) + 1) % 2 ** 32)))
-    yield mk("outpoint", edit=lambda t: setattr(t.tx_ins[idx], "prev_index", t.tx_ins[idx].prev_index + 1))
-    yield mk("version", edit=lambda t: setattr(t, "version", t.version + 1))
+    # --- committed fields changed after signing: EVERY field of the transaction and of the spent outputs
+    for name, ap, _ in field_edits(tx):
+        if name != f"in{idx}.spk":          # the spent output of the input under test defines the spend itself
+            yield mk("field:" + name, edit=ap)
 
     # --- signatures: where they live
     in_wit = shape in ("p2wpkh", "p2sh_p2wpkh", "p2wsh_ms", "p2sh_p2wsh_ms", "p2tr")
@@ -691,35 +867,91 @@ def foreign_maker(sp, idx):
 
 
 # --------------------------------------------------------------------------------- worker
-def _work(job):
-    """one spend and its whole mutation catalogue -> list of result rows"""
-    seed, i, shape = job
-    _patch()
-    rng = random.Random(f"C06:{seed}:{i}:{shape}")
-    rows = []
-    try:
-        sp, tx, idx = build_spend(rng, shape)
-    except MachineryError:
-        raise
-    except Exception as e:   # the library could not build the spend: completeness failure
-        return [{"name": "build", "shape": shape, "line": f"build {shape} {i}", "impl": "raise " + type(e).__name__,
-                 "auth": True, "tables": "", "base": True}]
-    cases = [("unmutated", tx)]
-    try:
-        cases += list(mutations(rng, sp, tx, idx, foreign_maker(sp, idx)))
-    except MachineryError:
-        raise
-    for name, t in cases:
-        impl, tables = run_impl(t, idx)
+def _row(sp, shape, name, t, j, base=False):
+    """run the implementation on input j of t (with recording) and snapshot everything the oracle needs"""
+    impl, tables = run_impl(t, j)
+    desc = tx_desc(t)
+    return {"name": name, "shape": shape, "idx": j, "line": request_line(desc, j), "mline": spend_line(t, j),
+            "impl": impl, "auth": None, "tables": tables, "base": base, "built_ok": sp["built_ok"], "desc": desc}
+
+
+def _oracle(sp, rows):
+    """authorisation of the rows that need it (accepted ones and library-built ones): the digests come from the
+    Lean specification (one drv_c05 batch per spend), the signatures are verified against them"""
+    need = [r for r in rows if r["impl"] == "ACCEPT" or r["base"]]
+    reqs, where = [], []
+    for r in need:
+        hts = sig_hash_types(sp, elements_of(r["desc"], r["idx"]))
+        q = spec_requests(sp, r["desc"], r["idx"], hts)
+        r["_hts"] = list(q)
+        for ht in r["_hts"]:
+            reqs.append(q[ht])
+            where.append((r, ht))
+    # identical requests (unchanged transaction) are asked once
+    uniq = list(dict.fromkeys(reqs))
+    ans = dict(zip(uniq, Driver("drv_c05").batch(uniq))) if uniq else {}
+    zmaps = {}
+    for (r, ht), q in zip(where, reqs):
+        zmaps.setdefault(id(r), {})[ht] = parse_spec_answer(sp["shape"], ans[q])
+    for r in need:
         try:
-            auth = authorised(sp, t, idx)
+            r["auth"] = bool(authorised(sp, r["desc"], r["idx"], zmaps.get(id(r), {})))
         except MachineryError:
             raise
         except Exception:
-            auth = False
-        rows.append({"name": name, "shape": sp["shape"] if shape not in ("p2tr_key", "p2tr_script") else shape,
-                     "line": spend_line(t, idx), "impl": impl, "auth": bool(auth), "tables": tables,
-                     "base": name == "unmutated", "built_ok": sp["built_ok"]})
+            r["auth"] = False
+        r.pop("_hts", None)
+
+
+def _work(job):
+    """one spend, its whole mutation catalogue and the object-reuse sequence -> list of result rows"""
+    seed, i, shape, layout, ht = job
+    _patch()
+    rng = random.Random(f"C06:{seed}:{i}:{shape}")
+    try:
+        sp, tx, idx = build_spend(rng, shape, layout, ht)
+    except MachineryError:
+        raise
+    except Exception as e:   # the library could not build the spend: completeness failure
+        return [{"name": "build", "shape": shape, "idx": 0, "line": f"build {shape} {i} {layout} {ht}", "mline": "",
+                 "impl": "raise " + type(e).__name__, "auth": True, "tables": "", "base": True, "built_ok": False}]
+    cases = list(mutations(rng, sp, tx, idx, foreign_maker(sp, idx)))     # clones, made before any in-place edit
+    rows = [_row(sp, shape, "unmutated", tx, idx, base=True)]
+    for name, t in cases:
+        rows.append(_row(sp, shape, name, t, idx))
+    # ---- object reuse: the SAME Tx / Script / Witness objects verified again and again
+    rows.append(_row(sp, shape, "reuse:again", tx, idx, base=True))
+    edits = [e for e in field_edits(tx) if e[0] != f"in{idx}.spk"]
+    for name, ap, rv in rng.sample(edits, min(4, len(edits))):
+        ap(tx)
+        rows.append(_row(sp, shape, "inplace:" + name, tx, idx))
+        rv(tx)
+        rows.append(_row(sp, shape, "reverted:" + name, tx, idx, base=True))
+    others = [j for j in range(len(tx.tx_ins)) if j != idx]
+    for order in (others, others[::-1]):
+        for j in order:
+            try:
+                tx.verify_input(j)
+            except Exception:
+                pass
+        rows.append(_row(sp, shape, "reuse:after_other_inputs", tx, idx, base=True))
+    if sp.get("twin") is not None:
+        j = sp["twin"]
+        rows.append(_row(sp, shape, "twin:shared_script_object", tx, j, base=True))
+        rows.append(_row(sp, shape, "twin:first_again", tx, idx, base=True))
+        rows.append(_row(sp, shape, "twin:second_again", tx, j, base=True))
+    if others and sp["shape"] in ("p2wpkh", "p2wsh_ms", "p2tr"):
+        # another input that spends the same Script object and carries the SAME Witness object: its signature is
+        # over the other outpoint
+        j = others[0]
+        tx.tx_ins[j]._script_pubkey = tx.tx_ins[idx]._script_pubkey
+        tx.tx_ins[j].script_sig = tx.tx_ins[idx].script_sig
+        tx.tx_ins[j].witness = tx.tx_ins[idx].witness
+        rows.append(_row(sp, shape, "shared_witness_object", tx, j))
+        rows.append(_row(sp, shape, "shared_witness_object:original", tx, idx))
+    _oracle(sp, rows)
+    for r in rows:
+        del r["desc"]
     return rows
 
 
